@@ -50,7 +50,7 @@ fn send_new_compilation_request(
     sync_workspace: Arc<SyncWorkspace>,
     mark_compiling: bool,
 ) {
-    let file_versions = file_versions(&state.documents, uri, version.map(|v| v as u64));
+    let mut file_versions = file_versions(&state.documents, uri, version.map(|v| v as u64));
 
     #[cfg(fuellabs_sway_verif)]
     crate::verif::point("H", "load_ic", 0);
@@ -68,9 +68,22 @@ fn send_new_compilation_request(
     if state.cb_tx.is_full() {
         #[cfg(fuellabs_sway_verif)]
         crate::verif::point("H", "try_recv", 0);
-        while let Ok(TaskMessage::CompilationContext(_)) = state.cb_rx.try_recv() {
+        while let Ok(TaskMessage::CompilationContext(replaced)) = state.cb_rx.try_recv() {
             // Loop will continue to remove `CompilationContext` messages
             // until the channel has no more of them.
+            //
+            // The request we remove has not been compiled. If it announced an edit (a file
+            // version), the request that replaces it must keep announcing it: a request without
+            // a version tells the compiler that its caches are current, so the edit would
+            // never be compiled (e.g. a `didSave` replacing a pending `didChange`).
+            for (path, replaced_version) in replaced.file_versions {
+                if let Some(replaced_version) = replaced_version {
+                    let version = file_versions.entry(path).or_insert(None);
+                    if version.is_none_or(|version| version < replaced_version) {
+                        *version = Some(replaced_version);
+                    }
+                }
+            }
             #[cfg(fuellabs_sway_verif)]
             crate::verif::point("H", "try_recv", 0);
         }
